@@ -443,6 +443,9 @@ func (e *Engine) checkSat(pc []*Term, extra *Term, want []*Term) (Result, []uint
 	if !e.opts.Deadline.IsZero() && time.Now().After(e.opts.Deadline) {
 		e.abort("deadline exceeded")
 	}
+	if memCritical.Load() {
+		e.abort("memory budget exceeded (process heap far above GOSMT_MEM_GB)")
+	}
 	as = e.withDefs(as)
 	if e.solver.dead {
 		e.solver.Close()
